@@ -14,6 +14,10 @@ THEOREMS = [
     "VK.C09_elected_cumulative",
     "VK.C09_eliminated_cumulative",
     "VK.C09_ranking_is_concat",
+    "VK.fpv_current",
+    "VK.stvStep_nonneg",
+    "VK.stvLoop_rounds_ok",
+    "VK.C09_stv_round_profiles",
 ]
 RULE = ("cases = finished election of any of the 18 rules (as generated for C01; failing constructions are skipped) x a "
         "history of 6-30 queries drawn with repetition from get_profile / get_step / get_elected / get_eliminated / "
